@@ -24,6 +24,10 @@ CHECKS = {
    technique="mode-product exploration: every program/layout of the bounded universes parsed in all 4 mode combinations, cross-mode tree-dump comparison + derived-input oracles (fused statements, open blocks, semicolon insertion before line-initial infix brackets)",
    text="All token sequences up to the bound and all statement-family programs in all layouts with <= k deviations are run through the four mode combinations of the real parser; the product is checked against the documented differences only (tolerant == strict on accepted programs incl. positions; tolerant additionally accepts fused statements / open blocks with the intact tree; smart == default except that a line-initial ( or [ after an expression end starts a statement). A flag consulted anywhere else shows up as a cross-mode difference on some enumerated program.",
    note="trusted: harness unparser roles (checked against goja by C02), message keywords for the two documented tolerant error kinds"),
+ "C12": dict(cat="fault_enumeration", sec="4 C12",
+   technique="exhaustive fault enumeration: every valid program of the bounded universes x every token deletion, line join, separator removal and truncation point; reference parser decides the domain",
+   text="For every enumerated valid program every single fault of the model is applied; corrupted texts that the reference ECMAScript parser rejects must make strict parsing report an error located no earlier than the last intact token. Each of the ~25 expect sites is reachable only by a specific corruption of a specific construct; enumerating programs x faults reaches all of them.",
+   note="trusted: goja accept/reject, R-tok for token boundaries; domain restriction D7 (template after expression end = tagged template)"),
  "C09": dict(cat="model_checking", sec="4 C09",
    technique="explicit-state exploration: all builder call histories <= depth 5/6 (stateless) + BFS with abstract-state dedup to depth 7/9, real SourceMapper vs list model, independent VLQ decoder",
    text="Every operation history up to the bound over a 25-call alphabet is executed on the real builder in lock-step with a reference model and the emitted mappings are decoded by an independent Source Map v3 decoder; every VLQ delta in [-2^20,2^20] is encoded through the public API and decoded. Exhaustive within the bound, which is where delta-reset, name carry-over and continuation-bit bugs live.",
